@@ -17,6 +17,15 @@ CHECKS = {
              "Exhaustive over the stated finite product, which is what a sequential codec with no cross-variable state needs.",
         note="Values are drawn from boundary alphabets per wire type (8/16-bit boundaries, single large values for 32/64-bit), not full domains; "
              "each-choice rows instead of full cross products; canonical value domain (see evidence assumptions)."),
+    "C02": dict(
+        category="exploration", design_ref="DESIGN.md §4 C02",
+        technique="bounded-exhaustive enumeration of datagrams (generated, byte-mutated, truncated, extended, re-zero-coded) x all inspection histories up to length 3",
+        text="Every generator datagram of all 481 templates (laid out by the independent reference encoder), every truncation / single-byte substitution / "
+             "extension of 14 basis datagrams and non-canonical zero-codings are pushed through every sequence of {header read, body touch, to_dict, "
+             "serialize} up to length 3 in deferred and eager mode; the output must be byte-identical (never parsed, failed parse, parsed with canonical "
+             "zero-coding) and must always decode to the same message. Exhaustive over the stated product.",
+        note="Datagrams rejected by the header parser are out of scope; byte identity after a successful parse is not demanded when a float decodes to NaN "
+             "or the zero-coding is non-canonical; mutation alphabet {00,01,7F,80,FF} per offset."),
     "C04": dict(
         category="model_checking", design_ref="DESIGN.md §4 C04",
         technique="explicit-state BFS over the real InjectionTracker (deepcopy successors, canonical state hashing, deviation bound)",
